@@ -53,7 +53,9 @@ static void *parse_null(spif_charptr_t, void *);
 static ctx_t *context;
 static ctx_state_t *ctx_state;
 static spifconf_func_t *builtins;
-static unsigned char ctx_cnt, ctx_idx, ctx_state_idx, ctx_state_cnt, fstate_cnt, builtin_cnt, builtin_idx;
+static unsigned char ctx_idx, ctx_state_idx, builtin_idx;
+/* Capacities double up to 320, which does not fit the 8-bit type of the indices. */
+static unsigned short ctx_cnt, ctx_state_cnt, fstate_cnt, builtin_cnt;
 static spifconf_var_t *spifconf_vars = NULL;
 
 const char *true_vals[] = { "1", "on", "true", "yes" };
@@ -171,6 +173,8 @@ spifconf_register_builtin(char *name, spifconf_func_ptr_t ptr)
     if (++builtin_idx == builtin_cnt) {
         builtin_cnt *= 2;
         builtins = (spifconf_func_t *) REALLOC(builtins, sizeof(spifconf_func_t) * builtin_cnt);
+        /* The table is searched up to the first NULL name; keep the new half zeroed. */
+        memset(builtins + builtin_idx, 0, sizeof(spifconf_func_t) * (builtin_cnt - builtin_idx));
     }
     return (builtin_idx - 1);
 }
